@@ -137,7 +137,7 @@ PROPS = {
         "assumptions": ["headers clause read as applying to a configured document (a mux without one answers `{}`)", "document equality modulo omitempty (empty == absent)"],
     },
     "C03": {
-        "lean_modules": ["MocProps.C03", "MocProps.C03Find"], "theorem_files": ["MocProps/C03.lean", "MocProps/C03Find.lean"],
+        "lean_modules": ["MocProps.C03", "MocProps.C03Find", "MocProps.C04Refine"], "theorem_files": ["MocProps/C03.lean", "MocProps/C03Find.lean"],
         "gen_groups": ["Cache", "Matcher"], "harness_prop": "cache", "driver_prop": "cache", "stateful": True,
         "monitors": ["query"],
         "n_quick": 60000, "n_thorough": 600000, "thorough_seeds": 3,
@@ -148,15 +148,17 @@ PROPS = {
                       "(find_eq_spec, find_eq_spec_reachable, find_perm_irrelevant). Ingredients proved: the tree order is a strict total order; insertOrd keeps sortedness and adds exactly the new "
                       "event; sorted lists with equal members are equal (sorted_ext); the ordered-scan path returns the first `limit` matches of the tree walk (scanLoop_eq, scan_eq_topOf); the "
                       "index path's candidate test is the id/author/kind/#x conjunction (idxCandidate_eq) and its top-k loop ends with the first `limit` of what passes since/until whatever the "
-                      "arrival order (topkLoop_eq, idx_eq_topOf); the merge over filters is the union (find_fold). Modelled, runtime-validated: the tree and the secondary index are derived views "
-                      "of the event list in the model; their maintenance code is tied by the step-by-step differential run (every answer after every insertion, 0 differences).",
-        "level_note": "Trusted: Lean kernel + standard axioms; go2lean; harness/driver; igrmk/treemap ordering and Go map iteration are modelled (derived views of the event list, an arbitrary "
-                      "permutation for map order), not verified; filters have distinct single-byte tag names and events no empty tag (what Valid guarantees).",
+                      "arrival order (topkLoop_eq, idx_eq_topOf); the merge over filters is the union (find_fold). The incremental maintenance of the tree and of the secondary index, and the reads through them "
+                      "(scan over the tree, candidates = intersection of unions of index sets) are modelled as state in MocModel/CacheC.lean and proved to refine this model for every history "
+                      "(C04Refine.concrete_refines_abstract, find_refines, cands_spec), so find_eq_spec speaks about the store as implemented; the concrete model's tables are compared with the "
+                      "implementation's own (hook VerifState) after every insertion.",
+        "level_note": "Trusted: Lean kernel + standard axioms; go2lean; harness/driver; igrmk/treemap ordering and Go map iteration are modelled (sorted list, finite map with an arbitrary "
+                      "permutation for iteration order), not verified; filters have distinct single-byte tag names and events no empty tag (what Valid guarantees).",
         "assumptions": ["equal created_at at a limit boundary: any valid top-n accepted by the monitor (the model itself is exact: ties broken by id)", "ids are injective over the stored events"],
     },
     "C04": {
-        "lean_modules": ["MocProps.C04"], "theorem_files": ["MocProps/C04.lean"],
-        "gen_groups": ["Cache"], "harness_prop": "cache", "driver_prop": "cache", "stateful": True,
+        "lean_modules": ["MocProps.C04", "MocProps.C04Refine"], "theorem_files": ["MocProps/C04.lean", "MocProps/C04Refine.lean"],
+        "gen_groups": ["Cache", "Matcher"], "harness_prop": "cache", "driver_prop": "cache", "stateful": True,
         "monitors": ["retention"],
         "n_quick": 60000, "n_thorough": 600000, "thorough_seeds": 3,
         "rule": CACHE_RULE,
@@ -164,10 +166,14 @@ PROPS = {
                       "ephemeral event (retention_all_histories, by induction with invariant Inv1), ids are pairwise distinct for id-injective histories (no_id_twice), nothing but "
                       "the offered event enters (add_subset), a not-new insertion changes nothing (not_new_no_change), the flag is characterised exactly (flag_iff: not suppressed and "
                       "first-or-strictly-newer of its key), newer displaces / older never does (newer_displaces), ephemeral events are never stored (ephemeral_never_retained). "
-                      "Comparisons, kind ranges and the capacity test are regenerated from the source. Tree/index maintenance is tied by the step-by-step differential run; the "
-                      "step relation `stepAllowed` is evaluated on the implementation's successive listings.",
-        "level_note": "Trusted: Lean kernel + standard axioms; go2lean; harness/driver; the creation-time tree and the index are derived views in the model (their maintenance is "
-                      "runtime-validated after every step).",
+                      "Comparisons, kind ranges and the capacity test are regenerated from the source. TREE AND INDEX MAINTENANCE is inside the model: MocModel/CacheC.lean keeps "
+                      "evsCreatedAt and evsIndex.idx as state updated the way the Go code does (Set/Del, Add/Delete with removal of emptied sets, eviction victim = last tree entry, by-id "
+                      "deletion through the id index, candidates = intersection of unions of index sets), and C04Refine proves the refinement for EVERY history over id-injective events: "
+                      "same flags, same maps, same answer to every query under every map iteration order (concrete_refines_abstract), the tree is the sorted view of the map and every "
+                      "index set is exactly the retained events filed under its key (tables_consistent). The concrete model's tree, index, map and deletion registry are compared with the "
+                      "implementation's own tables (hook EventCache.VerifState) after every insertion; the step relation `stepAllowed` is evaluated on the implementation's successive listings.",
+        "level_note": "Trusted: Lean kernel + standard axioms; go2lean; harness/driver; the treemap library and Go maps behave as sorted list / finite map (validated by the table comparison "
+                      "after every step).",
         "assumptions": ["equal created_at on one address: either version may be retained (model: first arrived)", "for ephemeral events the returned flag is not constrained by the monitor"],
     },
     "C05": {
